@@ -384,7 +384,8 @@ class IMAPConnection:
                         break
                 except AuthenticationError as exc:
                     msg = bytes(str(exc), 'utf-8', 'surrogateescape')
-                    resp = ResponseBad(cmd.tag, msg)
+                    resp = ResponseBad(cmd.tag,
+                                       msg or b'Invalid authentication data.')
                     await self.write_response(resp)
                 except TimeoutError:
                     resp = ResponseNo(cmd.tag, b'Operation timed out.',
